@@ -96,6 +96,8 @@ type result struct {
 	err        error
 	sig        string
 	foreign    string
+	foreignMsg string // what the other property's assertion said
+	foreignAt  int    // op index at which it fired
 	nontrivial bool
 	classes    map[string]int
 	trace      []string // C02-B observation trace (one entry per op index)
@@ -297,6 +299,8 @@ func (in *interp) violNoStop(prop, sig, format string, args ...any) {
 	}
 	if prop != in.own {
 		in.res.foreign = prop
+		in.res.foreignAt = in.step
+		in.res.foreignMsg = fmt.Sprintf("step %d %v: %s", in.step, in.curOp(), fmt.Sprintf(format, args...))
 		return
 	}
 	in.res.sig = sig
@@ -735,19 +739,28 @@ func (in *interp) exec(o Op) string {
 		}
 		w.opIdx = append(w.opIdx, in.step)
 		n := o.N
-		if o.H+n > 256 {
+		if n <= 256 && o.H+n > 256 {
 			n = 256 - o.H
 		}
 		for i := 0; i < n; i++ {
 			// P=1: no sampled audit inside the transaction (it would iterate the
 			// transaction's trees and freeze the nodes written so far)
-			e := Op{K: opInsert, W: o.W, T: o.T, ID: []byte{'a', byte(o.H + i)}, Tags: o.Tags, Pfx: o.Pfx, Val: o.Val, G: o.G &^ 3, P: 1, objN: 1000000 + in.step*1024 + i*4 + 1}
+			id := []byte{'a', byte(o.H + i)}
+			if o.N > 256 {
+				// large bulks (hundreds of objects, graveyards of hundreds of
+				// deletions): keys {'a', hi, lo}
+				id = []byte{'a', byte(i >> 8), byte(i)}
+			}
+			e := Op{K: opInsert, W: o.W, T: o.T, ID: id, Tags: o.Tags, Pfx: o.Pfx, Val: o.Val, G: o.G &^ 3, P: 1, objN: 1000000 + in.step*4096 + i*4 + 1}
 			if o.K == opBulkDelete {
 				e.K = opDelete
 			}
 			in.write(e, w)
 		}
 		in.res.class("bulk_write")
+		if n > 256 {
+			in.res.class("bulk_write_over_256_objects")
+		}
 		return fmt.Sprintf("bulk %d", n)
 	case opNewTable:
 		if len(in.extra) < 4 {
